@@ -600,7 +600,7 @@ def run(ctx):
     ctx.assumptions = ["strings.ToLower modelled on ASCII", "sort.Slice is not modelled: its output is checked"]
     c06.gen_tables(ctx)
     forbidden_gate(ctx, ["Base", "C11", "C09"])
-    ok, why = check_props(ctx, "C09/Props.v", ["C09/Harness.vo", "C09/Proofs.vo", "C09/FloatMono.vo", "C09/Natural.vo", "C09/StableSort.vo", "C09/VerbAny.vo", "C09/Within.vo"])
+    ok, why = check_props(ctx, "C09/Props.v", ["C09/Harness.vo", "C09/Proofs.vo", "C09/FloatMono.vo", "C09/Natural.vo", "C09/StableSort.vo", "C09/VerbAny.vo", "C09/Within.vo", "C09/DslFlags.vo"])
     rng = ctx.rng
     nsort = int((700 if ctx.tier == "quick" else 20000) * SCALE)
     ngroups = int((60 if ctx.tier == "quick" else 1000) * SCALE)
